@@ -163,7 +163,7 @@ def run(ctx):
         for cwidth in (80, 20):
             jobs.append((spec, cwidth, {}, ws if cwidth == 80 else ws[: sm + 6]))
     # ---- B: seeded random trees, depth <= 4, all options; console width != render width in a third of the cases
-    n = 3000 if quick else 36000
+    n = 3000 if quick else 30000
     for i in range(n):
         d = rng.choice([1, 2, 2, 3, 3, 4])
         spec = L.gen_tree(rng, d)
@@ -239,7 +239,7 @@ MANIFEST = {
     "Console.render's Segment stream is wider than w; containers that crop (padding, panel, table, columns, tree) need nothing of their children, "
     "the pass-through ones (group, styled, constrain, align, casts) use the induction hypothesis, text uses wrap/truncate (C02), tables use "
     "width_fits (C07) restricted to columns free to wrap exactly as the property says; `known_progressbar_in_group_overflows` machine-checks "
-    "the one excluded built-in case (F23).  Tie: ~40k (quick) / ~700k (thorough) renderings of hand-written corner trees and seeded random "
+    "the one excluded built-in case (F23).  Tie: ~40k (quick) / ~600k (thorough) renderings of hand-written corner trees and seeded random "
     "trees (depth <= 4, all options, ASCII/CJK/emoji/combining/zero-width content, newlines, tabs) compared character for character with "
     "real Console.render (not Console.print), widths smin-2..smin+12 densely and up to 200, several console widths, objects re-rendered to "
     "expose kept state; smin computed independently in Python and cross-checked; the property evaluated directly on rich's own output.",
